@@ -1202,6 +1202,185 @@ def haigh_oracle(case):
     return None
 
 
+_SCALAR_GOODMAN = {}
+
+
+def scalar_goodman_range(amp, mean, M, M2, R_goal):
+    """the transformed RANGE of one cycle, computed on its own by the scalar function of meanstress.py"""
+    import pylife.strength.meanstress as MS
+    key = (amp, mean, M, M2, R_goal)
+    v = _SCALAR_GOODMAN.get(key)
+    if v is None:
+        with warnings.catch_warnings():
+            warnings.simplefilter("ignore")
+            v = 2.0 * float(MS.fkm_goodman(np.array([amp]), np.array([mean]), M, M2, R_goal)[0])
+        if len(_SCALAR_GOODMAN) > 200000:
+            _SCALAR_GOODMAN.clear()
+        _SCALAR_GOODMAN[key] = v
+    return v
+
+
+MATRIX_HAIGH = ("one", "per-element", "extra-level")
+MATRIX_ROWS = ("sorted", "shuffled", "descending", "subset-shuffled")
+
+
+def matrix_case(rng):
+    elem = rng.random() < 0.7
+    haigh = rng.choice(MATRIX_HAIGH if elem else ("one", "extra-level", "extra-level"))
+    return {"kind": "matrix", "form": rng.choice(["ft", "ft", "rm"]), "elem": elem, "n_el": rng.randint(1, 3),
+            "nb": rng.randint(2, 3), "order": rng.randrange(6), "rows": rng.choice(MATRIX_ROWS), "haigh": haigh,
+            "n_h": rng.randint(1, 3), "R_goal": rng.choice([-1.0, -1.0, 0.0, 0.5]), "seed": rng.randrange(1 << 30)}
+
+
+def build_matrix(case):
+    """(matrix in the case's level order and row order, the same matrix with rows sorted, Haigh parameter)"""
+    import random
+    r = random.Random(case["seed"])
+    nb = case["nb"]
+    if case["form"] == "ft":
+        a = pd.IntervalIndex.from_breaks(np.linspace(-1.0, 1.0, nb + 1), closed="left", name="from")
+        b = pd.IntervalIndex.from_breaks(np.linspace(0.05, 2.05, nb + 1), closed="left", name="to")
+    else:
+        a = pd.IntervalIndex.from_breaks(np.linspace(0.0, 3.0, nb + 1), name="range")
+        b = pd.IntervalIndex.from_breaks(np.linspace(-1.0, 2.0, nb + 1), name="mean")
+    levels = [a, b]
+    elements = None
+    if case["elem"]:
+        elements = r.sample([1, 2, 3, 5, 8], case["n_el"])      # labels neither sorted nor positions
+        levels.append(pd.Index(elements, name="element_id"))
+    idx = pd.MultiIndex.from_product(levels)
+    mat = pd.Series([float(r.randint(1, 9)) for _ in range(len(idx))], index=idx, name="cycles")
+    names = list(idx.names)
+    perms = list(itertools.permutations(names))
+    order = list(perms[case["order"] % len(perms)])
+    mat = mat.reorder_levels(order)
+    ordered = mat.sort_index()
+    rows = case["rows"]
+    if rows == "sorted":
+        out = ordered
+    elif rows == "descending":
+        out = mat.sort_index(level=names[1], ascending=False, sort_remaining=False)
+    else:
+        pos = list(range(len(mat)))
+        r.shuffle(pos)
+        if rows == "subset-shuffled":
+            pos = pos[: max(1, (2 * len(pos)) // 3)]
+        out = mat.iloc[pos]
+        ordered = out.sort_index()
+    Ms = [0.52, 0.31, 0.13, 0.4]
+    M2s = [0.11, 0.07, 0.03, 0.2]
+    if case["haigh"] == "one":
+        i = r.randrange(4)
+        haigh = pd.Series({"M": Ms[i], "M2": M2s[i]})
+    elif case["haigh"] == "per-element":
+        # (every element of the matrix has a diagram row and vice versa: "every shared-level key present in both")
+        order_h = [e for e in elements if e in set(out.index.get_level_values("element_id"))]
+        r.shuffle(order_h)
+        picks = [r.randrange(4) for _ in order_h]
+        haigh = pd.DataFrame({"M": [Ms[i] for i in picks], "M2": [M2s[i] for i in picks]}, index=pd.Index(order_h, name="element_id"))
+    else:       # a level of the diagram that the matrix has not
+        labs = r.sample(["steel", "alu", "cast"], case["n_h"])
+        picks = [r.randrange(4) for _ in labs]
+        haigh = pd.DataFrame({"M": [Ms[i] for i in picks], "M2": [M2s[i] for i in picks]}, index=pd.Index(labs, name="material"))
+    return out.copy(), ordered.copy(), haigh
+
+
+def matrix_oracle(case):
+    """series.meanstress_transform.fkm_goodman (meanstress.py MeanstressTransformMatrix, built on HaighDiagram.transform
+    and a second Broadcaster call that aligns the transformed ranges with the matrix): the cycles in every class of the
+    result are the cycles of exactly those matrix entries whose OWN transformed range - computed one entry at a time by the
+    scalar function pylife.strength.meanstress.fkm_goodman - lies in that class; the result does not depend on the row
+    order of the matrix; matrix and Haigh parameter are untouched."""
+    import pylife.strength.meanstress  # noqa: F401
+    mat, ordered, haigh = build_matrix(case)
+    R_goal = case["R_goal"]
+    what = (f"meanstress_transform.fkm_goodman ({case['form']} matrix, levels {list(mat.index.names)}, rows {case['rows']}, "
+            f"Haigh {case['haigh']}, R_goal {R_goal})")
+    mat0, haigh0 = mat.copy(deep=True), haigh.copy(deep=True)
+    try:
+        with warnings.catch_warnings():
+            warnings.simplefilter("ignore")
+            res = mat.meanstress_transform.fkm_goodman(haigh, R_goal).to_pandas()
+    except Exception as e:
+        return (f"{what} raised {type(e).__name__}: {str(e)[:120]}", "consumer-raises")
+    for name, b, a in (("matrix", mat0, mat), ("Haigh parameter", haigh0, haigh)):
+        u = unchanged(b, a)
+        if u:
+            return (f"{what} modified the {name} ({u})", "consumer-inputs-modified")
+    # ---- the groups of the result: the matrix' own further levels and the diagram's levels
+    group_names = [n for n in ("element_id", "material") if n in mat0.index.names or
+                   (isinstance(haigh0, pd.DataFrame) and n in haigh0.index.names)]
+    if not isinstance(res, pd.Series) or sorted(res.index.names) != sorted(["range", "mean"] + group_names):
+        return (f"{what}: result levels {list(getattr(res, 'index', pd.Index([])).names)}, expected range, mean and {group_names}",
+                "consumer-levels")
+    pos = {n: res.index.names.index(n) for n in res.index.names}
+    got = {}
+    for k, v in zip(res.index, res.to_numpy()):
+        got[(tuple(k[pos[n]] for n in group_names), k[pos["range"]])] = float(v)
+        iv_r, iv_m = k[pos["range"]], k[pos["mean"]]
+        f = (1.0 + R_goal) / (2.0 * (1.0 - R_goal))
+        if not (core.close(iv_m.left, iv_r.left * f, rtol=1e-12, atol=1e-12) and core.close(iv_m.right, iv_r.right * f, rtol=1e-12, atol=1e-12)):
+            return (f"{what}: class range {iv_r} is paired with mean {iv_m}", "consumer-keys")
+    if len(got) != len(res):
+        return (f"{what}: duplicate keys in the result", "consumer-keys")
+    classes = sorted({k[1] for k in got}, key=lambda iv: iv.left)
+    groups = sorted({k[0] for k in got}, key=repr)
+    # ---- entry by entry, with the scalar function
+    names = list(mat0.index.names)
+    lo = {k: 0.0 for k in got}
+    hi = {k: 0.0 for k in got}
+    want_groups = set()
+    for key, cyc in zip(mat0.index, mat0.to_numpy()):
+        kd = dict(zip(names, key))
+        if case["form"] == "ft":
+            amp, mean = abs(kd["from"].mid - kd["to"].mid) / 2.0, (kd["from"].mid + kd["to"].mid) / 2.0
+        else:
+            amp, mean = kd["range"].mid / 2.0, kd["mean"].mid
+        if isinstance(haigh0, pd.Series):
+            rows = [({}, haigh0)]
+        elif haigh0.index.name in kd:
+            rows = [({}, haigh0.loc[kd[haigh0.index.name]])]
+        else:
+            rows = [({haigh0.index.name: lab}, haigh0.loc[lab]) for lab in haigh0.index]
+        for extra, h in rows:
+            full = dict(kd, **extra)
+            g = tuple(full[n] for n in group_names)
+            want_groups.add(g)
+            rg = scalar_goodman_range(float(amp), float(mean), float(h["M"]), float(h["M2"]), R_goal)
+            tol = 1e-9 * max(1.0, abs(rg))
+            sure = [iv for iv in classes if (iv.left + tol < rg <= iv.right - tol)]
+            maybe = [iv for iv in classes if (iv.left - tol <= rg <= iv.right + tol)]
+            if not maybe or (g, maybe[0]) not in got:
+                return (f"{what}: the entry {key} (group {g}) has the scalar transformed range {rg!r}, no class of the result "
+                        f"holds it (classes {classes[0]} … {classes[-1]}, groups {groups[:4]})", "consumer-keys")
+            for iv in maybe:
+                hi[(g, iv)] += float(cyc)
+            for iv in sure:
+                lo[(g, iv)] += float(cyc)
+    if want_groups != set(groups):
+        return (f"{what}: groups of the result {groups[:5]} != expected {sorted(want_groups, key=repr)[:5]}", "consumer-keys")
+    for k in got:
+        if not (lo[k] - 1e-9 <= got[k] <= hi[k] + 1e-9):
+            return (f"{what}: class {k[1]} of group {k[0]} holds {got[k]} cycles; the entries whose own (scalar) transformed "
+                    f"range lies in it hold {lo[k]}" + (f" … {hi[k]}" if hi[k] != lo[k] else "") +
+                    f" (the result holds {sum(got.values())} cycles in all, the matrix {float(mat0.sum())})",
+                    "consumer-value")
+    # ---- the same matrix with its rows in sorted order
+    if case["rows"] != "sorted":
+        try:
+            with warnings.catch_warnings():
+                warnings.simplefilter("ignore")
+                ref = ordered.meanstress_transform.fkm_goodman(haigh0.copy(), R_goal).to_pandas()
+        except Exception as e:
+            return (f"{what}: the same matrix with sorted rows raised {type(e).__name__}: {str(e)[:100]}", "consumer-raises")
+        rp = {n: ref.index.names.index(n) for n in ref.index.names}
+        refd = {(tuple(k[rp[n]] for n in group_names), k[rp["range"]]): float(v) for k, v in zip(ref.index, ref.to_numpy())}
+        if refd != got:
+            bad = [k for k in got if refd.get(k) != got[k]][:3]
+            return (f"{what}: the result depends on the row order of the matrix: {[(k, got[k], refd.get(k)) for k in bad]}", "consumer-state")
+    return None
+
+
 def haigh_five_oracle(case):
     """meanstress.py HaighDiagram.five_segment of a frame (one row of M0..M4, R12, R23 per element; the element rows are
     broadcast to the (element, R) rows): every element's five slopes sit on that element's five intervals."""
@@ -1502,7 +1681,7 @@ def _woehler_oracle(case):
     return None
 
 
-CONSUMER_KINDS = ("woehler", "haigh", "haigh-five", "haigh-transform", "collective-raise")
+CONSUMER_KINDS = ("woehler", "haigh", "haigh-five", "haigh-transform", "collective-raise", "matrix")
 
 
 # ------------------------------------------------------------------ the property module
@@ -1658,6 +1837,14 @@ class C13(Prop):
                     if layout(case) == "overlapping" and not shared_keys_present(case):
                         case["outside"] = True
                     yield case
+        # rainflow matrix x Haigh diagram through series.meanstress_transform.fkm_goodman
+        i = 0
+        for form in ("ft", "rm"):
+            for rows in ("sorted", "shuffled", "descending"):
+                for elem, haigh in ((True, "one"), (True, "per-element"), (True, "extra-level"), (False, "one"), (False, "extra-level")):
+                    i += 1
+                    yield {"kind": "matrix", "form": form, "elem": elem, "n_el": 2 + i % 2, "nb": 2 + (i // 2) % 2, "order": i % 6,
+                           "rows": rows, "haigh": haigh, "n_h": 1 + i % 2, "R_goal": (-1.0, 0.0, -1.0, 0.5)[i % 4], "seed": 1000 + i}
         for v in range(len(COLLECTIVE_RAISE_VARIANTS)):
             for op in ("scale", "shift"):
                 yield {"kind": "collective-raise", "variant": v, "op": op}
@@ -1684,8 +1871,10 @@ class C13(Prop):
                 yield woehler_case(rng)
             elif u < 0.98:
                 yield {"kind": "haigh", "n_e": rng.randint(1, 5), "seed": rng.randrange(1 << 30), "m2": rng.random() < 0.6}
-            elif u < 0.985:
+            elif u < 0.984:
                 yield {"kind": "haigh-five", "n_e": rng.randint(1, 4), "seed": rng.randrange(1 << 30)}
+            elif u < 0.992:
+                yield matrix_case(rng)
             else:
                 yield {"kind": "haigh-transform", "n_e": rng.randint(1, 4), "n_c": rng.randint(1, 4), "seed": rng.randrange(1 << 30),
                        "cycles": rng.choice(["disjoint", "per-element"]), "R_goal": rng.choice([-1.0, 0.0, 0.5, -3.0])}
@@ -1785,6 +1974,10 @@ class C13(Prop):
             if res is not None and res[1] == "haigh-callers-frame-modified" and self.known(res[1], res[0]):
                 return None
             return res
+        if case.get("kind") == "matrix":
+            k = f"matrix-{case['form']}-{'elem' if case['elem'] else 'noelem'}-{case['rows']}-{case['haigh']}"
+            self.stats["consumer_cases"][k] = self.stats["consumer_cases"].get(k, 0) + 1
+            return matrix_oracle(case)
         if case.get("kind") == "haigh-five":
             self.stats["consumer_cases"]["haigh-five"] = self.stats["consumer_cases"].get("haigh-five", 0) + 1
             return haigh_five_oracle(case)
@@ -1919,6 +2112,13 @@ class C13(Prop):
     def shrink(self, case, still_fails):
         if case.get("kind") in CONSUMER_KINDS:
             cur = dict(case)
+            if case.get("kind") == "matrix":
+                for k, v in (("nb", 2), ("n_el", 1), ("n_h", 1), ("order", 0)):
+                    if cur[k] != v:
+                        cand = dict(cur, **{k: v})
+                        if still_fails(cand):
+                            cur = cand
+                return cur
             for k in [k for k in ("n_e", "n_s") if k in case]:
                 while cur[k] > 1:
                     cand = dict(cur, **{k: cur[k] - 1})
